@@ -1262,6 +1262,11 @@ fn family_parse(out: &mut Vec<Case>) {
     }
     // legal but unusual names (what the tag parser accepts as a name: letters, digits, `-`, `_`, `.`, `:` ...) in every name position,
     // each position in its own element so that one rejected attribute does not hide the others
+    // identifier-like words made of characters Rust calls alphabetic / alphanumeric but JavaScript does not accept in an
+    // IdentifierName (and some it does): whatever the parser makes of them, every artefact must still be a Script
+    for w in ["m\u{b2}", "a\u{bd}", "\u{24b6}", "a\u{2460}", "\u{540d}", "\u{e9}t\u{e9}", "x\u{2160}", "\u{661}a", "a\u{1F600}", "\u{aa}", "a\u{300}", "\u{2118}", "a\u{b7}b", "\u{3007}"] {
+        pc("nonascii", vec![("p/u", format!("<view a=\"{{{{ {w} }}}}\" b=\"{{{{ o.{w} }}}}\" c=\"{{{{ {{ {w}: 1 }} }}}}\" d=\"{{{{ {{ {w} }} }}}}\" e=\"{{{{ {w}.f({w}) }}}}\">{{{{ {w} + 1 }}}}</view><template is=\"t\" data=\"{{{{ {w}: a, ...{w} }}}}\"/><view wx:for=\"{{{{ {w} }}}}\" wx:for-item=\"{w}\">{{{{ {w} }}}}</view><comp><view slot:{w}>{{{{ {w} }}}}</view></comp>", w = w))], vec![], out);
+    }
     for e in ["a-b", "a.b", "a_b", "a--b", "a-", "a.", "a-b.c", "1a", "a1", "if", "new", "class", "default", "in", "do", "var", "null", "true", "constructor", "__proto__", "\u{3b1}", "a\u{1F600}", "A", "aB", "a$b", "$"] {
         pc("names", vec![("p/n", format!("<view {e}=\"1\"/><view data-{e}=\"2\"/><view mark:{e}=\"3\"/><view bind:{e}=\"h\" catch:{e}=\"h\" capture-bind:{e}=\"h\" mut-bind:{e}=\"h\"/><comp data:{e}=\"{{{{ a }}}}\"/><comp {e}=\"{{{{ b }}}}\"/><comp model:{e}=\"{{{{ c }}}}\"/><comp change:{e}=\"{{{{ d }}}}\"/><view class:{e}=\"{{{{ f }}}}\"/><view style:{e}=\"{{{{ g }}}}\"/><comp><view slot:{e}>{{{{ {i} }}}}</view></comp><comp generic:{e}=\"x\" generic:z=\"{e}\"/><comp worklet:{e}=\"w\"/><{e}/><slot {e}=\"{{{{ a }}}}\"/><slot name=\"{e}\"/><template name=\"{e}\">t</template><template is=\"{e}\"/><view slot=\"{e}\"/><view wx:for=\"{{{{ l }}}}\" wx:for-item=\"{e}\" wx:for-index=\"i{e}\" wx:key=\"{e}\"/>", e = e, i = if e.chars().all(|c| c.is_ascii_alphanumeric()) && !e.starts_with(|c: char| c.is_ascii_digit()) { e } else { "q" }))], vec![], out);
     }
